@@ -25,6 +25,7 @@ func main() {
 	callers := flag.Bool("callers", false, "print non-test callers of the function specs given as arguments")
 	briefN := flag.Int("brief", 0, "with -dump: omit logging/event calls and error returns, truncate lines to N chars")
 	warm := flag.Bool("warm", false, "load the workspace once (warms the build cache) and exit")
+	inventory := flag.Bool("inventory", false, "print the function inventory of the loaded tree and exit")
 	self := flag.Bool("selftest", false, "run the rule kinds against the checker's own fixtures and exit (with -dump: print fixture facts)")
 	flag.Parse()
 	if t := os.Getenv("VERIF_TIER"); t != "" && (t == "quick" || t == "thorough") {
@@ -74,6 +75,10 @@ func main() {
 	}
 	if *warm {
 		fmt.Printf("loaded %d packages, %d functions in %.1fs\n", len(P.Pkgs), P.NumFuncs, P.LoadTime.Seconds())
+		return
+	}
+	if *inventory {
+		printInventory(P)
 		return
 	}
 	if *dump {
